@@ -77,9 +77,24 @@ def case_family(fam, geometry, rep):
         exps = monomials_total(dim, order) if kind == "total" else monomials_tensor(dim, order)
         Xq = physical_qp(reg)
         X = mesh.points
+        # the polynomials live in coordinates scaled to the body (O(1) values, gradients O(1/size) on meshes of any length unit)
+        X0, Lc = X.mean(0), float(np.ptp(X, axis=0).max())
+
+        class Scaled:
+            def __init__(self, p):
+                self.p = p
+
+            def __call__(self, Y):
+                return self.p((Y - X0) / Lc)
+
+            def grad(self, Y):
+                return self.p.grad((Y - X0) / Lc) / Lc
+
+            def hess(self, Y):
+                return self.p.hess((Y - X0) / Lc) / Lc ** 2
         for trial in range(2 if run.tier == "quick" else 5):
             ncomp = int(rng.integers(1, 4))
-            polys = [Poly(rng, dim, exps) for _ in range(ncomp)]
+            polys = [Scaled(Poly(rng, dim, exps)) for _ in range(ncomp)]
             vals = np.stack([p(X) for p in polys], axis=1)
             if F.get("mini"):
                 # nodal values sample the polynomial; the bubble is a hierarchical dof, not a nodal value
@@ -178,6 +193,124 @@ def case_exact_integration(fam):
                         maxabs(K - Kref) / maxabs(Kref), 1e-11,
                         "%s: default quadrature does not integrate grad h_a . grad h_b exactly on affine cells" % fam,
                         unit=fam + ":exact-integration", config=(fam, geometry, "exact-integration"))
+    return fn
+
+
+def case_more(rep):
+    """Construction paths and field options the other cases leave out (second coverage audit): templates that take a slice of
+    a richer connectivity, bubble unknowns with non-zero values, symmetric gradients of the 2D field kinds, list-valued extract
+    flags, float32 copies with hessians, un-permuted Lagrange regions, 1D regions."""
+    def fn(run):
+        import felupe as fem
+        rng = rng_for(run.seed, "C06", "more", rep)
+        mon = "region.more"
+        # ---- 1. a lower-order template on the mesh of a richer family (the linear region of a mixed formulation)
+        pairs = [("quad9", "RegionQuad", 4, 2), ("quad9", "RegionQuadraticQuad", 8, 2), ("quad8", "RegionQuad", 4, 2),
+                 ("hexahedron27", "RegionHexahedron", 8, 3), ("hexahedron27", "RegionQuadraticHexahedron", 20, 3), ("hexahedron20", "RegionHexahedron", 8, 3),
+                 ("triangle6", "RegionTriangle", 3, 2), ("tetra10", "RegionTetra", 4, 3), ("triangleMINI", "RegionTriangle", 3, 2), ("tetraMINI", "RegionTetra", 4, 3)]
+        fam, Rname, ncol, dim = pairs[rep % len(pairs)]
+        mesh, info = gen.build_mesh(fam, "affine", rng)
+        reg = getattr(fem, Rname)(mesh)
+        X = mesh.points
+        run.compare(mon, "template=%s mesh=%s clause=volume" % (Rname, fam), abs(reg.dV.sum() - info["volume"]) / info["volume"], 1e-11,
+                    "%s on a %s mesh: sum dV != geometric volume" % (Rname, fam), unit="more:sliced-template", config=("sliced", Rname, fam))
+        a, b = rng.uniform(-1, 1, dim), float(rng.uniform(-1, 1))
+        Lc = float(np.ptp(X, axis=0).max())
+        fld = fem.Field(reg, dim=1, values=(X @ a / Lc + b).reshape(-1, 1))
+        run.compare(mon, "template=%s mesh=%s clause=grad" % (Rname, fam), maxabs(fld.grad()[0] - (a / Lc).reshape(dim, 1, 1)) * Lc, 1e-10,
+                    "%s on a %s mesh: gradient of a linear function is wrong" % (Rname, fam), unit="more:sliced-template")
+        if not (np.array_equal(reg.mesh.cells, mesh.cells[:, :ncol]) and reg.mesh.cells.shape[1] == ncol):
+            run.fail(mon, "template=%s mesh=%s clause=connectivity-slice" % (Rname, fam), "the region does not use the first %d nodes of every cell" % ncol)
+        # ---- 2. bubble unknowns with non-zero values: u = linear part + beta * multiplier * prod(barycentric coordinates)
+        famb = ["triangleMINI", "tetraMINI"][rep % 2]
+        mult = [None, float(rng.uniform(0.5, 3.0))][(rep // 2) % 2]
+        meshb, _ = gen.build_mesh(famb, ["affine", "distorted"][(rep // 4) % 2], rng)
+        kw = {} if mult is None else {"bubble_multiplier": mult}
+        regb = gen.make_region(famb, meshb, hess=True, **kw)
+        d = meshb.dim
+        nvb = d + 1
+        Xb = meshb.points
+        Lb = float(np.ptp(Xb, axis=0).max())
+        a2, b2 = rng.uniform(-1, 1, d), float(rng.uniform(-1, 1))
+        vals = (Xb @ a2 / Lb + b2).reshape(-1, 1)
+        beta = rng.uniform(-1, 1, meshb.ncells)
+        vals[meshb.cells[:, -1], 0] = beta
+        fb = fem.Field(regb, dim=1, values=vals)
+        m_eff = 0.1 if mult is None else mult  # the templates' documented default multiplier
+        V = Xb[meshb.cells[:, :nvb]]  # (c, v, d)
+        Tm = np.concatenate([np.ones((len(V), nvb, 1)), V], axis=2)  # rows [1, x_v]
+        Ti = np.linalg.inv(Tm)  # columns: coefficients of lambda_v = Ti[:, 0, v] + Ti[:, 1:, v] . x
+        Xq = physical_qp(regb)  # (q, c, d)
+        lam = Ti[None, :, 0, :] + np.einsum("qcd,cdv->qcv", Xq, Ti[:, 1:, :])  # (q, c, v)
+        glam = np.moveaxis(Ti[:, 1:, :], 0, 1)  # (d, c, v)
+        prod = np.prod(lam, axis=2)
+        gprod = sum(np.prod(np.delete(lam, v, axis=2), axis=2)[None] * glam[:, None, :, v] for v in range(nvb))  # (d, q, c)
+        ref_v = (Xq @ a2 / Lb + b2) + beta[None, :] * m_eff * prod
+        ref_g = (a2 / Lb).reshape(d, 1, 1) + beta[None, None, :] * m_eff * gprod
+        run.compare(mon, "template=%s clause=bubble-interpolate" % famb, maxabs(fb.interpolate()[0] - ref_v), 1e-11,
+                    "%s: value of a field with a non-zero bubble unknown is not the linear part plus the bubble" % famb, unit="more:bubble", config=("bubble", famb, mult is None))
+        run.compare(mon, "template=%s clause=bubble-grad" % famb, maxabs(fb.grad()[0] - ref_g) * Lb, 1e-9,
+                    "%s: gradient of a field with a non-zero bubble unknown is not the linear part plus the bubble's gradient" % famb, unit="more:bubble")
+        # ---- 3. 2D field kinds: symmetric gradient flag, list-valued extract flags of a two-field container
+        fam2 = ["quad", "quad8", "triangle"][rep % 3]
+        mesh2, _ = gen.build_mesh(fam2, "distorted" if not fam2.startswith("tri") else "affine", rng)
+        mesh2 = mesh2.copy(points=mesh2.points + np.array([0.0, 1.5 * float(np.ptp(mesh2.points[:, 1])) - mesh2.points[:, 1].min()]))
+        reg2 = gen.make_region(fam2, mesh2)
+        X2 = mesh2.points
+        G = rng.uniform(-1, 1, (2, 2))
+        u2 = X2 @ G.T
+        for Fcls in (fem.FieldPlaneStrain, fem.FieldAxisymmetric):
+            f2 = Fcls(reg2, dim=2, values=u2)
+            g = f2.grad()
+            gs = f2.grad(sym=True)
+            run.compare(mon, "field=%s clause=grad(sym=True)" % Fcls.__name__, maxabs(gs - 0.5 * (g + np.swapaxes(g, 0, 1))), 1e-13,
+                        "%s.grad(sym=True) is not the symmetric part of grad()" % Fcls.__name__, unit="more:sym-2d", config=("sym", Fcls.__name__, fam2))
+            run.compare(mon, "field=%s clause=grad-in-plane" % Fcls.__name__, maxabs(g[:2, :2] - G.reshape(2, 2, 1, 1)), 1e-11,
+                        "%s.grad(): in-plane part is not the gradient of the linear map" % Fcls.__name__, unit="more:sym-2d")
+        fa, fb2 = fem.Field(reg2, dim=2, values=u2), fem.Field(reg2, dim=2, values=X2 @ G)
+        fc = fem.FieldContainer([fa, fb2])
+        # documented: grad may be given per field (sym and add_identity are single flags)
+        ex = fc.extract(grad=[True, False], sym=True, add_identity=False) if rep % 2 else fc.extract(grad=[False, True], sym=False, add_identity=True)
+        want = [0.5 * (G + G.T).reshape(2, 2, 1, 1), None] if rep % 2 else [None, (G.T + np.eye(2)).reshape(2, 2, 1, 1)]
+        for k in range(2):
+            if want[k] is not None:
+                run.compare(mon, "clause=extract-list-flags field=%d" % k, maxabs(ex[k] - want[k]), 1e-11,
+                            "FieldContainer.extract with per-field flags: entry %d is not what its flags say" % k, unit="more:extract-lists")
+            else:
+                fk = fc[k]
+                run.compare(mon, "clause=extract-list-flags field=%d" % k, maxabs(ex[k] - fk.interpolate()), 1e-13,
+                            "FieldContainer.extract with per-field flags: entry %d is not the interpolated value" % k, unit="more:extract-lists")
+        # ---- 4. float32 copy of a region with hessians
+        famh = ["quad", "hexahedron", "triangle", "tetra"][rep % 4]
+        mh, _ = gen.build_mesh(famh, "affine", rng)
+        rh = gen.make_region(famh, mh, hess=True)
+        r32 = rh.astype(np.float32)
+        sc = max(maxabs(rh.d2hdXdX), 1e-300)
+        run.compare(mon, "template=%s clause=float32-hessian" % famh, maxabs(np.asarray(r32.d2hdXdX, float) - rh.d2hdXdX) / sc if maxabs(rh.d2hdXdX) > 0 else maxabs(r32.d2hdXdX), 1e-4,
+                    "astype(float32) of a region with hessians: d2hdXdX is not the float64 one within single precision", unit="more:float32-hess", config=("float32-hess", famh))
+        # ---- 5. un-permuted Lagrange region (element and rule in tensor-product order), one-dimensional region
+        order, dm = [(2, 2), (3, 2), (2, 3)][rep % 3]
+        import itertools
+        grid = np.array(list(itertools.product(range(order + 1), repeat=dm)), float)[:, ::-1] / order  # first axis fastest
+        A, t = gen.random_affine(rng, dm)
+        Xl = grid @ A.T + t
+        ml = fem.Mesh(Xl, np.arange(len(Xl)).reshape(1, -1), "VTK_LAGRANGE_QUADRILATERAL" if dm == 2 else "VTK_LAGRANGE_HEXAHEDRON")
+        rl = fem.RegionLagrange(ml, order=order, dim=dm, permute=False)
+        run.compare(mon, "template=RegionLagrange(permute=False) clause=volume", abs(rl.dV.sum() - abs(np.linalg.det(A))) / abs(np.linalg.det(A)), 1e-11,
+                    "RegionLagrange(permute=False) on a tensor-product ordered cell: sum dV != volume", unit="more:lagrange-unpermuted", config=("lagrange-unpermuted", order, dm))
+        c = rng.uniform(-1, 1, dm)
+        Ll = float(np.ptp(Xl, axis=0).max())
+        fl = fem.Field(rl, dim=1, values=((Xl @ c / Ll) ** order).reshape(-1, 1))
+        Xql = np.einsum("caI,aqc->qcI", Xl[ml.cells], np.broadcast_to(rl.h, (rl.h.shape[0], rl.h.shape[1], 1)))
+        gref = (order * (Xql @ c / Ll) ** (order - 1))[None] * (c / Ll).reshape(dm, 1, 1)
+        run.compare(mon, "template=RegionLagrange(permute=False) clause=grad", maxabs(fl.grad()[0] - gref) * Ll, 1e-9,
+                    "RegionLagrange(permute=False): gradient of (c.X)^order is wrong", unit="more:lagrange-unpermuted")
+        xs = np.cumsum(rng.uniform(0.2, 1.0, int(rng.integers(3, 7))))
+        m1 = fem.mesh.Line(n=len(xs)).copy(points=xs.reshape(-1, 1))
+        r1 = fem.Region(m1, fem.Line(), fem.GaussLegendre(order=1, dim=1))
+        f1 = fem.Field(r1, dim=1, values=(3 * xs + 1).reshape(-1, 1))
+        run.compare(mon, "template=Region(Line) clause=length+grad", max(abs(r1.dV.sum() - (xs[-1] - xs[0])) / (xs[-1] - xs[0]), maxabs(f1.grad() - 3.0)), 1e-12,
+                    "one-dimensional region: length or gradient of a linear function wrong", unit="more:line-region", config=("line",))
     return fn
 
 
@@ -651,6 +784,8 @@ def cases(tier, seed):
         out.append(("family-equality:%d" % rep, case_family_equality(rep)))
     for rep in range(6 if tier == "quick" else 18):
         out.append(("paths:%d" % rep, case_paths(rep)))
+    for rep in range(10 if tier == "quick" else 40):
+        out.append(("more:%d" % rep, case_more(rep)))
     for fam in BOUNDARY_TEMPLATES:
         for rep in range(3 if tier == "quick" else 9):
             out.append(("boundary-template:%s:%d" % (fam, rep), case_boundary_templates(fam, rep)))
@@ -667,6 +802,7 @@ def _required():
             req.append(fam + ":hess")
         if not gen.FAMILIES[fam].get("mini"):
             req.append(fam + ":exact-integration")
+    req += ["more:" + u for u in ("sliced-template", "bubble", "sym-2d", "extract-lists", "float32-hess", "lagrange-unpermuted", "line-region")]
     req += ["paths:" + u for u in ("copy-hess", "dhdr-pairing", "extract-flags", "extract-out", "float32-field", "grad-out", "grad-sym", "h-pairing",
                                    "interpolate-out", "lagrange-multicell", "mixed-extract", "reload", "bare-reload", "uniform-hess", "uniform-sheared")]
     req += ["boundary-template:%s:grad" % f for f in BOUNDARY_TEMPLATES]
